@@ -75,7 +75,7 @@ KF_LEADING_ONE = "KF-setitem-value-extra-leading-dim"
 KF_WHERE_0D = "KF-ufunc-where-0d-out"
 KF_NEG_ZERO_CHUNK = "KF-negstep-slice-zero-width-chunk"
 KF_MASKED_0D = "KF-setitem-masked-0d"
-KF_ZERO_CHUNK_MASK = "KF-dask-mask-zero-width-chunks"
+KF_ZERO_CHUNK_MASK = "KF-ccs-after-zero-width-chunk-unify"
 KF_SEPARATED = "KF-index-int-fancy-separated"
 KF_RESHAPE0 = "KF-reshape-zero-size"
 
@@ -201,6 +201,14 @@ def n_blocks(coll):
         return max(1, int(np.prod([len(c) for c in coll.chunks])))
     except Exception:
         return 1
+
+
+def zero_chunk_mix(colls):
+    """Operands with different chunkings of which at least one has a zero-width block next to other blocks."""
+    try:
+        return any(has_zero_chunk(c) for c in colls) and len({tuple(c.chunks) for c in colls}) > 1
+    except Exception:
+        return False
 
 
 def has_zero_chunk(coll):
@@ -733,6 +741,8 @@ class Interp:
             self.pool[-1].uout = v.uout or any(w.uout for w in extra)
             self.pool[-1].weight = 1 + v.weight * (2 if kind in ("boolmask", "rowmask") else 1) + sum(w.weight for w in extra)
             self.pool[-1].tags = set(self.tags) | v.tags | {x for w in extra for x in w.tags}
+            if extra and zero_chunk_mix([v.coll] + [w.coll for w in extra]):
+                self.pool[-1].tags.add(KF_ZERO_CHUNK_MASK)
         return fails
 
     def op_drop(self, step):
@@ -759,6 +769,8 @@ class Interp:
         self.labels.add("ccs:unknown" if was_unknown else "ccs:known")
         if t.uout:
             self.tags.add(KF_SLICE_UOUT)  # compute_chunk_sizes slices a map_blocks of the collection
+        if KF_ZERO_CHUNK_MASK in t.tags:
+            self.tags.add(KF_ZERO_CHUNK_MASK)
         others = [e for _, e in self.live() if e is not t and t.eid in e.anc]
         if t.computed:
             self.labels.add("mutation-after-compute")
@@ -817,8 +829,8 @@ class Interp:
             self.tags.add(KF_NONE_KEY)
         if val == "masked" and t.mirror.ndim == 0:
             self.tags.add(KF_MASKED_0D)
-        if any(isinstance(e, dict) and "dfull" in e and any(len(c) > 1 and 0 in c for c in e["dfull"]["chunks"]) for e in key["tuple"]):
-            self.tags.add(KF_ZERO_CHUNK_MASK)
+        if dmask_key and zero_chunk_mix([t.coll] + [k for k in (da_key if isinstance(da_key, tuple) else (da_key,)) if hasattr(k, "chunks")]):
+            t.tags.add(KF_ZERO_CHUNK_MASK)  # the assignment itself is fine; a later compute_chunk_sizes is not
         if has_neg_step(key) and has_zero_chunk(t.coll):
             self.tags.add(KF_NEG_ZERO_CHUNK)
         if nonscalar and sel is not None and np.ndim(np_val) > len(sel):
@@ -1291,9 +1303,6 @@ def _gen_key(D_, it, i, t, family):
         return {"tuple": [{"npfull": {"shape": list(shape), "bits": _bits(D_, int(np.prod(shape)))}}], "bare": True}, "ok"
     if form == "dfull":
         ch = t.coll.chunks if D_.bool() else gchunks.array_chunks(D_, shape)
-        if has_zero_chunk(t.coll) and ch is t.coll.chunks and _steer(KF_ZERO_CHUNK_MASK):
-            it.excluded.append(KF_ZERO_CHUNK_MASK)
-            ch = gchunks.array_chunks(D_, shape)
         return {"tuple": [{"dfull": {"shape": list(shape), "bits": _bits(D_, int(np.prod(shape))), "chunks": [list(map(int, c)) for c in ch]}}], "bare": True}, "ok"
     if form == "dcmp":
         cands = _members(it, lambda e: _plain(e) and e.shape == shape)
@@ -1385,7 +1394,7 @@ def _gen_value(D_, it, i, t, key, sel):
     vs = [1 if D_.chance(1, 5) else n for n in vs]
     if 0 in sel and not D_.chance(1, 10):
         vs = [min(n, 1) for n in vs]  # dask_array only takes unit-size values for an empty selection
-    if k == "array" and sel and D_.chance(1, 10):
+    if k == "array" and sel and not any(isinstance(e, dict) and "npfull" in e for e in tup) and D_.chance(1, 10):
         if _steer(KF_LEADING_ONE):
             it.excluded.append(KF_LEADING_ONE)
         else:
@@ -1572,6 +1581,9 @@ def gen_ccs(D_, it):
     if _steer(KF_SLICE_UOUT) and any(it.pool[c].uout for c in cands):
         it.excluded.append(KF_SLICE_UOUT)
         cands = [c for c in cands if not it.pool[c].uout]
+    if _steer(KF_ZERO_CHUNK_MASK) and any(KF_ZERO_CHUNK_MASK in it.pool[c].tags for c in cands):
+        it.excluded.append(KF_ZERO_CHUNK_MASK)
+        cands = [c for c in cands if KF_ZERO_CHUNK_MASK not in it.pool[c].tags]
     unk = [c for c in cands if it.pool[c].unknown]
     if not cands:
         return None
@@ -1959,7 +1971,7 @@ REGION_DOC = {
     KF_LEADING_ONE: "setitem with a value that has more dimensions than the selection (extra leading unit dimensions)",
     KF_WHERE_0D: "ufunc(..., out=v, where=mask) on a 0-d v",
     KF_MASKED_0D: "x[...] = np.ma.masked on a 0-d x",
-    KF_ZERO_CHUNK_MASK: "a full-shape dask mask whose chunks contain a zero-width block next to other blocks was assigned through; a later compute_chunk_sizes of the target fails",
+    KF_ZERO_CHUNK_MASK: "compute_chunk_sizes of a collection built by combining (dask-mask assignment, where=, v+w) operands with different chunkings of which one has a zero-width block",
     KF_NEG_ZERO_CHUNK: "negative-step slice of a collection whose chunks contain a zero-width block next to other blocks (typical after compute_chunk_sizes)",
     KF_OUT_DTYPE: "ufunc(..., out=v) whose natural result dtype differs from v's dtype",
     KF_SLICE_UOUT: "a basic index / boolean mask (or compute_chunk_sizes, which slices internally) applied to a collection whose expression contains an ufunc out= result",
